@@ -232,6 +232,13 @@ def add_targets(E, spec, pid):
         if pr is not None and pr.cls == GP:
             u = ctx.force(ctx.getf(pr, "url")) if ctx.getf(pr, "url") is not None else None
             P["C17"].append(u.z == z3.String("parsed.normalized") if isinstance(u, VStr) else z3.BoolVal(False))
+        if pr is not None and pr.cls == TPc:
+            # upload: only the SCHEME prefix is swapped - the rest of the caller's URL goes on the wire as written
+            tu = ctx.force(ctx.getf(pr, "titan_url")) if ctx.getf(pr, "titan_url") is not None else None
+            url = z3.String("url")
+            rest = z3.SubString(url, 9, z3.Length(url) - 9)
+            want_base = z3.If(z3.PrefixOf(SV("gemini://"), url), z3.Concat(SV("titan://"), rest), url)
+            P["C17"].append(z3.PrefixOf(z3.Concat(want_base, SV(";size=")), tu.z) if isinstance(tu, VStr) else z3.BoolVal(False))
             db = ctx.force(ctx.getf(pr, "decode_body")) if ctx.getf(pr, "decode_body") is not None else None
             P["C18"].append(db.z == z3.Bool("client.decode_body") if isinstance(db, VBool) else z3.BoolVal(False))
         if conns:
